@@ -192,6 +192,17 @@ def constructor_pairs() -> list[tuple[str, str | None, str]]:
     out.append((str(Command.get_system_mode(ctl)), f"RP --- {ctl} {GWY} --:------ 2E04 008 00FFFFFFFFFFFF00", "ctor"))
     out.append((str(Command.get_dhw_temp(ctl)), f"RP --- {ctl} {GWY} --:------ 1260 003 000B6F", "ctor"))
     out.append((str(Command.get_tpi_params(ctl)), f"RP --- {ctl} {GWY} --:------ 1100 008 FC180400007FFF01", "ctor"))
+    # ventilation: a bare request (one index byte) to a fan / CO2 sensor and a recorded reply of that code
+    seen_hvac: set[str] = set()
+    for _, f in gen.corpus_frames():
+        p = f.split()
+        if len(p) < 9 or p[1] != "RP" or p[-3] not in ("31DA", "31D9", "22F1", "22F3", "12A0", "1298", "2411", "313E", "4E02") or p[-3] in seen_hvac:
+            continue
+        src = p[3]
+        if src[:2] not in ("32", "30", "37", "20", "29"):
+            continue
+        seen_hvac.add(p[-3])
+        out.append((f"RQ --- {HGI} {src} --:------ {p[-3]} 001 {p[-1][:2]}", f"RP --- {src} {GWY} --:------ {p[-3]} {p[-2]} {p[-1]}", "ctor-hvac"))
     # the two recorded 1FC9 findings (known_findings.json): always re-observed
     out.append(("RQ --- 18:000730 13:049798 --:------ 1FC9 001 00", f"RP --- 13:049798 {GWY} --:------ 1FC9 006 003EF034C286", "ctor-1FC9"))
     out.append((" W --- 18:000730 37:154011 --:------ 1FC9 012 0031D949EE9C0031DA49EE9C", f" I --- 37:154011 {GWY} --:------ 1FC9 001 00", "ctor-1FC9"))
